@@ -106,6 +106,22 @@ func c06Check(c *core.Ctx, cert *zx509.Certificate, raw []byte, mode bool, desc,
 	}
 	sub := func(n *der.Node) []byte { return raw[n.Start:n.End] }
 	issuer, subject, spki := tbs.Children[b+2], tbs.Children[b+4], tbs.Children[b+5]
+	// The comparison is only meaningful when the TLV structure itself has the shape of a certificate. zcrypto's
+	// asn1 does not check that an EXPLICIT wrapper ends where its inner element ends, so it can accept inputs whose
+	// true TLV structure is something else (e.g. a [0] wrapper whose length swallows the serial number); that laxity
+	// belongs to the strict-DER property (C19), not to this one: such inputs are counted and skipped.
+	isSeq := func(n *der.Node) bool { return n.IsUniversal(der.TagSequence) && n.Constructed && n.Children != nil }
+	shapeOK := tbs.Children[b].IsPrimitive(der.TagInteger) && isSeq(tbs.Children[b+1]) && isSeq(issuer) && isSeq(tbs.Children[b+3]) &&
+		len(tbs.Children[b+3].Children) == 2 && isSeq(subject) && isSeq(spki) && len(spki.Children) == 2 &&
+		isSeq(root.Children[1]) && root.Children[2].IsPrimitive(der.TagBitString)
+	if b == 1 {
+		w := tbs.Children[0]
+		shapeOK = shapeOK && w.Children != nil && len(w.Children) == 1 && w.Children[0].IsPrimitive(der.TagInteger)
+	}
+	if !shapeOK {
+		c.Count("tlv_structure_is_not_certificate_shaped_(not_asserted)", 1)
+		return false
+	}
 	cmp := func(field string, got, want []byte) {
 		if !bytes.Equal(got, want) {
 			viol("raw-field:"+field, "%s is not the exact sub-encoding of the input\n got  %s\n want %s", field, core.Hex(got), core.Hex(want))
